@@ -279,15 +279,26 @@ func mine() bool {
 
 // Per-case limits: a parse that neither returns nor fails is a violation of the property
 // ("never a panic or a hang").  The case body runs in its own goroutine and writes its lines into
-// a private buffer; the main goroutine waits at most caseLimit of wall-clock time and also gives up
+// a private buffer; the main goroutine waits until the process has burnt caseLimit of CPU time on the
+// case (wall-clock time alone would misfire on a loaded machine; wallLimit is only a cap) and also gives up
 // when the heap runs away (a hanging parse typically allocates without bound).  A stuck goroutine
 // cannot be killed, so after printing the crash line the harness re-executes itself and resumes at
 // the next case id (generation is deterministic, earlier ids are skipped without running).
 const (
-	caseLimit   = 2 * time.Second
-	heapLimit   = 1536 << 20 // bytes
-	maxTimeouts = 20         // re-executions per shard; then the shard stops
+	caseLimit   = 2 * time.Second  // CPU time the process may burn on one case (a hanging parse spins)
+	wallLimit   = 45 * time.Second // wall-clock cap, generous: a loaded machine must not look like a hang
+	heapLimit   = 1536 << 20       // bytes
+	maxTimeouts = 20               // re-executions per shard; then the shard stops
 )
+
+// cpuTime is the user+system CPU time consumed by this process so far.
+func cpuTime() time.Duration {
+	var ru syscall.Rusage
+	if err := syscall.Getrusage(syscall.RUSAGE_SELF, &ru); err != nil {
+		return 0
+	}
+	return time.Duration(ru.Utime.Nano() + ru.Stime.Nano())
+}
 
 var resume int // first case id to run (VERIF_C07_RESUME)
 
@@ -305,6 +316,7 @@ func guarded(cid int, f func(w *strings.Builder)) {
 		f(&w)
 	}()
 	start := time.Now()
+	cpu0 := cpuTime()
 	tick := time.NewTicker(20 * time.Millisecond)
 	defer tick.Stop()
 	why := ""
@@ -319,8 +331,12 @@ wait:
 			}
 			return
 		case <-tick.C:
-			if time.Since(start) >= caseLimit {
-				why = fmt.Sprintf("timeout: no result within %s (hang)", caseLimit)
+			if used := cpuTime() - cpu0; used >= caseLimit {
+				why = fmt.Sprintf("timeout: no result after %s of CPU time (hang)", caseLimit)
+				break wait
+			}
+			if time.Since(start) >= wallLimit {
+				why = fmt.Sprintf("timeout: no result within %s of wall-clock time (hang)", wallLimit)
 				break wait
 			}
 			var ms runtime.MemStats
@@ -534,7 +550,7 @@ func (t dterm) render() string {
 	return strconv.Quote(t.word)
 }
 
-var denoteProbes = []string{"/^v$/", "/./", "/v/", "/a|b/", "v", "^v$", ".", "a|b", "a", "x", "vv", "", "/", "//"}
+var denoteProbes = []string{"/^v$/", "/./", "/v/", "/a|b/", "v", "^v$", ".", "a|b", "a", "x", "vv", "", "/", "//", "a/b", "[/]"}
 
 func denoteCase(conn string, terms []dterm) {
 	var parts, tdesc, rms []string
@@ -598,6 +614,9 @@ func denoteCase(conn string, terms []dterm) {
 
 var denoteWords = []string{"v", "^v$", ".", "a|b", "/^v$/", "/./", "/v/", "/a|b/", "vv", "x"}
 
+// regexps whose first byte matters to the delimiter scan (bracket, group, escape) or that are empty
+var denoteRegexps = []string{"[/]", "(a/b)", "\\/", "", "[/]v", "(/)|x", "[^/]", "\\/\\/"}
+
 func genDenote(r *hx.Rand) {
 	n := 2 + r.Intn(2)
 	conn := hx.Pick(r, []string{"or", "and", "list", "or"})
@@ -605,7 +624,9 @@ func genDenote(r *hx.Rand) {
 	base := hx.Pick(r, []string{"v", "^v$", ".", "a|b"})
 	for i := 0; i < n; i++ {
 		var t dterm
-		switch r.Intn(5) {
+		switch r.Intn(6) {
+		case 5: // a regexp with '/' inside brackets / a group / escaped, or the empty regexp
+			t = dterm{form: 'R', word: hx.Pick(r, denoteRegexps)}
 		case 0: // the regexp
 			t = dterm{form: 'R', word: base}
 		case 1: // the quoted literal that looks like it
@@ -920,10 +941,14 @@ func main() {
 		{"and", []dterm{{true, 'R', "."}, {false, 'Q', "/./"}}},
 		{"or", []dterm{{false, 'L', "v"}, {false, 'Q', "v"}, {false, 'R', "v"}}},
 		{"and", []dterm{{false, 'R', "v"}, {true, 'Q', "/v/"}, {true, 'L', "vv"}}},
+		{"or", []dterm{{false, 'R', "[/]"}, {false, 'Q', "x"}}},
+		{"or", []dterm{{false, 'R', ""}, {false, 'Q', "x"}}},
+		{"and", []dterm{{false, 'R', "(a/b)"}, {true, 'R', "\\/\\/"}}},
+		{"list", []dterm{{false, 'R', "\\/"}, {false, 'L', "v"}}},
 	} {
 		denoteCase(c.conn, c.terms)
 	}
-	for _, t := range []string{`a@""`, `.name,/size@"",goos@alpha`, `.fullname@""`, `a@"alpha"`, `"a"@"num" b`, `a@"bogus"`, `a@"first"`, `"":x`, `""@alpha`, `a b,c@num`} {
+	for _, t := range []string{`,a`, ` , a`, `a,,b`, `a, ,b`, `a,`, `a ,b`, `a, b`, `x b@bogus`, `a .unit c`, `a,b@num,.unit@alpha`, `a ""`, `a@""`, `.name,/size@"",goos@alpha`, `.fullname@""`, `a@"alpha"`, `"a"@"num" b`, `a@"bogus"`, `a@"first"`, `"":x`, `""@alpha`, `a b,c@num`} {
 		exprCase(t, "witness")
 	}
 	for i, n := 0, hx.N(1500, 30000); i < n; i++ {
